@@ -2698,8 +2698,11 @@ class Variogram(object):
             all_params = {}
             # add the parameters for each model, with parameter suffix from 1 to the total number
             for i in range(len(list_model_names)):
+                # the single shared nugget is the last parameter of the last model
+                is_last = i == len(list_model_names) - 1
                 model_params = create_dict_for_model(model_name=list_model_names[i], cof=cof[list_argslices[i]],
-                                                  maxlag=maxlag, maxvar=maxvar, use_nugget=self.use_nugget, id=str(i+1))
+                                                  maxlag=maxlag, maxvar=maxvar,
+                                                  use_nugget=self.use_nugget and is_last, id=str(i+1))
                 all_params.update(model_params)
 
         # for a single model
